@@ -592,6 +592,13 @@ def m_option(ctx):
         return on_variant(ex, st, o, {'Some': tk, 'None': lambda s2, o2: none()})
     if op == 'or':
         return on_variant(ex, st, o, {'Some': lambda s2, o2: o2, 'None': lambda s2, o2: s2.tr(A[1])})
+    if op == 'transpose':
+        def tr_some(s2, o2):
+            inner = ex.deref_val(s2, P(s2, o2))
+            if not isinstance(inner, Obj):
+                raise MirError('Option::transpose on a non-Result payload')
+            return on_variant(ex, s2, inner, {'Ok': lambda s3, r3: ok(some(payload(ex, s3, r3, 'Ok'))), 'Err': lambda s3, r3: r3})
+        return on_variant(ex, st, o, {'Some': tr_some, 'None': lambda s2, o2: ok(none())})
     if op == 'get_or_insert_with':
         def have(s2, o2):
             return Ref(('field', o2, ('Some', 0, variant_payload_type(o2.ty, 'Some'))))
@@ -1110,7 +1117,7 @@ def m_into_iter(ctx):
         it = Obj('Iter', kind='iter'); it.attrs['src'] = v; it.attrs['pos'] = 0
         it.attrs['mode'] = 'ref' if isinstance(a, Ref) else 'val'
         return [(None, it)]
-    if isinstance(v, Obj) and v.discr in ('Some', 'None') :
+    if isinstance(v, Obj) and isinstance(v.discr, str) and v.discr in ('Some', 'None'):
         it = Obj('Iter', kind='iter'); src = new_vec('Vec', [v.fields[('Some', 0)]] if v.discr == 'Some' else [])
         it.attrs['src'] = src; it.attrs['pos'] = 0; it.attrs['mode'] = 'val'
         return [(None, it)]
@@ -1386,9 +1393,15 @@ def collect_into(ex, st, xs, ret_ty):
         inner = generic_args(ret_ty)[0]
         good = 'Ok' if h == 'Result' else 'Some'
         vals = []
+        names = ['Ok', 'Err'] if h == 'Result' else ['None', 'Some']
         for x in xs:
+            x = ex.deref_val(st, x)
+            if isinstance(x, Obj) and not isinstance(x.discr, str) and x.discr is not None:
+                d = z3.simplify(x.discr) if z3.is_expr(x.discr) else x.discr
+                if z3.is_bv_value(d) and d.as_long() < 2:
+                    x.discr = names[d.as_long()]
             if not isinstance(x, Obj) or not isinstance(x.discr, str):
-                raise MirError('collect into Result with symbolic variants')
+                raise MirError(f'collect into Result with symbolic variants: {x!r} discr={getattr(x, "discr", None)!r}')
             if x.discr != good:
                 return x
             vals.append(x.fields[(good, 0)])
